@@ -4,6 +4,17 @@ usage: run_seeds.py [seed ids...]   (never leaves /repo modified)"""
 import json, os, subprocess, sys
 VERIF = "/verif"
 ids = sys.argv[1:]
+REPO = "/repo"
+if ids and ids[0] == "--repo":
+    # evaluate against a scratch clone of /repo (same HEAD) so that /repo itself stays free
+    REPO = ids[1]
+    ids = ids[2:]
+    if not os.path.exists(os.path.join(REPO, ".git")):
+        subprocess.check_call(["git", "clone", "-q", "/repo", REPO])
+        os.makedirs(os.path.join(REPO, "config"), exist_ok=True)
+        subprocess.check_call(["cp", "/repo/config/bitcoin-config.h", os.path.join(REPO, "config/")])
+    subprocess.check_call("git -C %s fetch -q /repo HEAD && git -C %s reset -q --hard FETCH_HEAD" % (REPO, REPO), shell=True)
+os.environ["VERIF_REPO"] = REPO
 import re
 manifest = json.load(open(os.path.join(VERIF, "MANIFEST.json")))
 claimed = [c["property_id"] for c in manifest["checks"]]
@@ -14,7 +25,7 @@ if os.path.exists(_rp):
         res = json.load(open(_rp))
     except Exception:
         res = {}
-assert subprocess.run("git -C /repo status --porcelain --untracked-files=no", shell=True, capture_output=True, text=True).stdout.strip() == "", "/repo not clean"
+assert subprocess.run("git -C %s status --porcelain --untracked-files=no" % REPO, shell=True, capture_output=True, text=True).stdout.strip() == "", "/repo not clean"
 for sid in sorted(os.listdir(os.path.join(VERIF, "seeded"))):
     d = os.path.join(VERIF, "seeded", sid)
     mp = os.path.join(d, "meta.json")
@@ -30,18 +41,18 @@ for sid in sorted(os.listdir(os.path.join(VERIF, "seeded"))):
     if os.path.exists(os.path.join(d, "patch.rebased.diff")):
         patch = os.path.join(d, "patch.rebased.diff")
         how = "apply (rebased onto the fixed tree)"
-    r = subprocess.run(["git", "-C", "/repo", "apply", patch], capture_output=True, text=True)
+    r = subprocess.run(["git", "-C", REPO, "apply", patch], capture_output=True, text=True)
     if r.returncode:
-        subprocess.run("git -C /repo reset -q --hard HEAD", shell=True)
-        r = subprocess.run(["git", "-C", "/repo", "apply", "--3way", patch], capture_output=True, text=True)
+        subprocess.run("git -C %s reset -q --hard HEAD" % REPO, shell=True)
+        r = subprocess.run(["git", "-C", REPO, "apply", "--3way", patch], capture_output=True, text=True)
         how = "apply --3way"
-        st = subprocess.run("git -C /repo diff --name-only --diff-filter=U", shell=True, capture_output=True, text=True).stdout.strip()
+        st = subprocess.run("git -C %s diff --name-only --diff-filter=U" % REPO, shell=True, capture_output=True, text=True).stdout.strip()
         if st:
             r.returncode = 1
             r.stderr = "conflicts in " + st
     if r.returncode:
         res[sid] = {"applied": False, "why": r.stderr[-300:]}
-        subprocess.run("git -C /repo reset -q --hard HEAD", shell=True)
+        subprocess.run("git -C %s reset -q --hard HEAD" % REPO, shell=True)
         print(sid, "PATCH DOES NOT APPLY")
         continue
     try:
@@ -61,5 +72,5 @@ for sid in sorted(os.listdir(os.path.join(VERIF, "seeded"))):
             for l in v[:1]:
                 print("     ", k, l[:200])
     finally:
-        subprocess.run("git -C /repo reset -q --hard HEAD", shell=True)
+        subprocess.run("git -C %s reset -q --hard HEAD" % REPO, shell=True)
 json.dump(res, open(os.path.join(VERIF, "seeded", "results.json"), "w"), indent=1)
